@@ -158,7 +158,9 @@ def gen_mc(scen, outdir=GEN):
     user = [f for f in scripts if f != "thr0"]
     objs = scen.get("objects", {})
     mutexes = objs.get("mutex", [])
-    mpscqs = list(mutexes) + objs.get("mpscq", [])
+    def names(kind):
+        return [o[0] if isinstance(o, list) else o for o in objs.get(kind, [])]
+    mpscqs = list(mutexes) + names("mpscq") + [b + "_" + str(i) for b in names("barrier") for i in (0, 1)] + names("cond") + scen.get("mpscqs", [])
     lines = ["@@HEAD@@", ""]
     lines.append(f"cThreads == 0..{nthreads - 1}")
     lines.append(f"cUser == {tla_set(user)}")
@@ -167,6 +169,12 @@ def gen_mc(scen, outdir=GEN):
     lines.append(f"cScript == ({sc}) @@ [f \\in {allf} |-> <<>>]")
     lines.append(f"cMutexes == {tla_set(mutexes)}")
     lines.append(f"cMpscQs == {tla_set(mpscqs)}")
+    if "barrier" in objs or mod == "Barrier":
+        lines.append(f"cBarriers == {tla_set(names('barrier'))}")
+        lines.append("cBCount == " + tla_val({o[0]: o[1] for o in objs.get("barrier", [])}))
+        cl_extra = [" Barriers <- cBarriers", " BCount <- cBCount"]
+    else:
+        cl_extra = []
     consts = {"PushToStoreTo": True, "StealOn": True, "BypassCap": 64}
     consts.update(scen.get("consts", {}))
     extra = scen.get("tla_consts", {})  # name -> TLA expression text
@@ -179,7 +187,7 @@ def gen_mc(scen, outdir=GEN):
     with open(os.path.join(outdir, f"MCT_{name}.tla"), "w") as f:
         f.write(body.replace("@@HEAD@@", f"---- MODULE MCT_{name} ----\nEXTENDS Trace{mod}"))
     cl = ["CONSTANTS", " Threads <- cThreads", " UserFibers <- cUser", " Script <- cScript",
-          " Mutexes <- cMutexes", " MpscQs <- cMpscQs", ' defaultInitValue = "dflt"']
+          " Mutexes <- cMutexes", " MpscQs <- cMpscQs", ' defaultInitValue = "dflt"'] + cl_extra
     for k, v in consts.items():
         cl.append(f" {k} = {tla_val(v)}")
     for k in extra:
